@@ -1,8 +1,16 @@
 /-
   Property C03 — concurrent hash set/map: linearizable insert-if-absent, one winner per key.
-  Property theorems only (helper lemmas live next to the model, `Babylon/Swiss/Conc*.lean`).
+  Property theorems only (model: `Babylon/Swiss/Conc.lean`; invariants and lemmas:
+  `Babylon/Swiss/Conc*.lean`, reusing the probing lemmas of the sequential model proved for C18).
+
+  Every theorem quantifies over: the hash function `hash : Nat → Nat` (so colliding hashes and equal
+  7-bit tags are included), every state reachable from any initial bucket count or from the
+  default-constructed placeholder (`Init`), through any interleaving of any number of threads
+  (`Step`: one relaxed byte load / fence + compare / CAS / construct / release store / size add /
+  yield / next-pointer load or CAS of any thread, or a call / return), any key multiset, any number
+  of growth steps.  `Reach hash s` = `s` is such a state.
 -/
-import Babylon.Swiss.Conc
+import Babylon.Swiss.ConcThm
 
 namespace Babylon.Properties.C03
 open Babylon.Core Babylon.Swiss Babylon.Swiss.Conc
@@ -32,5 +40,286 @@ theorem gen_cas_operands : casExpected = emptyCtl ∧ casDesired = busyCtl ∧
 theorem gen_controls : emptyCtl < 0 ∧ busyCtl < 0 ∧ dummyCtl < 0 ∧ emptyCtl ≠ busyCtl ∧ emptyCtl ≠ dummyCtl ∧
     busyCtl ≠ dummyCtl ∧ groupSize = 16 ∧ groupMask = 15 ∧ checkerMask = 127 ∧ checkerBits = 7 ∧
     dummyLen = 32 := by decide
+
+/-! ### swiss_ctrl_monotone -/
+
+/-- **swiss_ctrl_monotone (1/2).**  In one step of any thread every control byte of every table
+either keeps its value or moves EMPTY → BUSY (main byte, by the CAS), BUSY → tag (main byte) or
+EMPTY → tag (mirrored byte); tables are never removed, the chain and the history only grow. -/
+theorem swiss_ctrl_monotone (hash : Nat → Nat) {s s' : State} (h : Reach hash s) (hst : Step hash s s') :
+    (∀ tb, tb < s.nodes.length → ∀ x, CtlMove (nodeAt s.nodes tb).tab.n x
+      ((nodeAt s.nodes tb).tab.ctl x) ((nodeAt s'.nodes tb).tab.ctl x)) ∧
+    s.nodes.length ≤ s'.nodes.length ∧ s.chain <+: s'.chain ∧ s.log <+: s'.log :=
+  ⟨step_ctl_move h hst, (step_mono h hst).1.1, (step_mono h hst).2.1, (step_mono h hst).2.2⟩
+
+/-- never back: a published tag (non-negative byte), a constructed value, a claim and a `next`
+pointer are final -/
+theorem swiss_ctrl_final (hash : Nat → Nat) {s s' : State} (h : Reach hash s) (hst : Step hash s s')
+    {tb : Nat} (htb : tb < s.nodes.length) :
+    (∀ x, 0 ≤ (nodeAt s.nodes tb).tab.ctl x → (nodeAt s'.nodes tb).tab.ctl x = (nodeAt s.nodes tb).tab.ctl x) ∧
+    (∀ i e, (nodeAt s.nodes tb).tab.val i = some e → (nodeAt s'.nodes tb).tab.val i = some e) ∧
+    (∀ x, (nodeAt s.nodes tb).next = some x → (nodeAt s'.nodes tb).next = some x) :=
+  let le := (step_mono h hst).1.2 tb htb
+  ⟨le.ctl, le.val, le.next⟩
+
+/-- **swiss_ctrl_monotone (2/2).**  A mirrored byte equals its main byte, except that it is still
+EMPTY while the inserter of that bucket is between its CAS and its second release store. -/
+theorem swiss_mirror_lag (hash : Nat → Nat) {s : State} (h : Reach hash s) {tb j : Nat}
+    (htb : tb < s.nodes.length) (hd : (nodeAt s.nodes tb).tab.dummy = false) (hj : j < 15) :
+    (nodeAt s.nodes tb).tab.ctl ((nodeAt s.nodes tb).tab.n + j) = (nodeAt s.nodes tb).tab.ctl j ∨
+    ((nodeAt s.nodes tb).tab.ctl ((nodeAt s.nodes tb).tab.n + j) = emptyCtl ∧ Inserting s tb j) := by
+  have hok := (reachable_good h).1.nodes tb htb
+  rcases hok.mirror hd j hj with he | ⟨_, heq⟩
+  · by_cases hm : (nodeAt s.nodes tb).tab.ctl j = emptyCtl
+    · left; rw [he, hm]
+    · exact Or.inr ⟨he, reachable_mirror h tb htb hd j hj hm he⟩
+  · exact Or.inl heq
+
+/-! ### swiss_one_winner -/
+
+/-- **swiss_one_winner (1/3).**  For each key at most one call reports `inserted = true`: two
+`true` results in the history for the same key are the same event. -/
+theorem swiss_one_winner (hash : Nat → Nat) {s : State} (h : Reach hash s) {a b : Nat}
+    (ha : a < s.log.length) (hb : b < s.log.length)
+    {t1 t2 : Nat} {k1 k2 : Kind} {e1 e2 : Elem} {tb1 i1 tb2 i2 : Nat} {b1 b2 : Bool} {m1 m2 : Option (Nat × Nat)}
+    (h1 : s.log[a] = .ret t1 k1 e1 (.slot tb1 i1 true) b1 m1)
+    (h2 : s.log[b] = .ret t2 k2 e2 (.slot tb2 i2 true) b2 m2) (hk : e1.1 = e2.1) : a = b := by
+  obtain ⟨hi, hl⟩ := reachable_good h
+  have r1 := hl.rets _ (h1 ▸ List.getElem_mem ha)
+  have r2 := hl.rets _ (h2 ▸ List.getElem_mem hb)
+  obtain ⟨l1, p1, _⟩ := r1
+  obtain ⟨l2, p2, _⟩ := r2
+  rw [hk] at p1
+  obtain ⟨e3, e4⟩ := hi.distinct _ _ _ _ _ l1 l2 p1.2.2.2.1 p2.2.2.2.1
+  subst e3 e4
+  exact nodup_filterMap_index (f := insertedSlot) (o := (tb1, i1)) ha hb hl.winners
+    (by rw [h1]; rfl) (by rw [h2]; rfl)
+
+/-- **swiss_one_winner (2/3).**  All calls (insertions and lookups, on the fixed table or on the
+growing set) that return an element for a key return the same bucket of the same table, and that
+bucket holds the key, fully constructed and published. -/
+theorem swiss_same_slot (hash : Nat → Nat) {s : State} (h : Reach hash s)
+    {t1 t2 : Nat} {k1 k2 : Kind} {e1 e2 : Elem} {tb1 i1 tb2 i2 : Nat} {ins1 ins2 b1 b2 : Bool}
+    {m1 m2 : Option (Nat × Nat)}
+    (h1 : Event.ret t1 k1 e1 (.slot tb1 i1 ins1) b1 m1 ∈ s.log)
+    (h2 : Event.ret t2 k2 e2 (.slot tb2 i2 ins2) b2 m2 ∈ s.log) (hk : e1.1 = e2.1) :
+    tb1 = tb2 ∧ i1 = i2 ∧ (nodeAt s.nodes tb1).tab.keyAt i1 = some e1.1 ∧
+      (nodeAt s.nodes tb1).tab.ctl i1 = tagOf (hash e1.1) := by
+  obtain ⟨hi, hl⟩ := reachable_good h
+  obtain ⟨l1, p1, _⟩ := hl.rets _ h1
+  obtain ⟨l2, p2, _⟩ := hl.rets _ h2
+  rw [← hk] at p2
+  obtain ⟨e3, e4⟩ := hi.distinct _ _ _ _ _ l1 l2 p1.2.2.2.1 p2.2.2.2.1
+  exact ⟨e3, e4, p1.2.2.1, p1.2.2.2.2.1⟩
+
+/-- **swiss_one_winner (3/3).**  Fully constructed before visible: a bucket whose main control byte
+shows a tag holds a constructed value whose key has that tag; and the value cell a thread is about
+to compare its key with (after its acquire fence) has been constructed. -/
+theorem swiss_constructed_before_visible (hash : Nat → Nat) {s : State} (h : Reach hash s) :
+    (∀ tb i, tb < s.nodes.length → (nodeAt s.nodes tb).tab.dummy = false → i < (nodeAt s.nodes tb).tab.n →
+      0 ≤ (nodeAt s.nodes tb).tab.ctl i →
+      ∃ k v, (nodeAt s.nodes tb).tab.val i = some (k, v) ∧ (nodeAt s.nodes tb).tab.ctl i = tagOf (hash k)) ∧
+    (∀ t f j ms, s.pc t = .cmp f (j :: ms) →
+      ∃ k v, (nodeAt s.nodes f.tb).tab.val ((f.base + j) % f.n) = some (k, v) ∧
+        tagOf (hash k) = tagOf (hash f.e.1)) := by
+  obtain ⟨hi, _⟩ := reachable_good h
+  refine ⟨fun tb i htb hd hlt hc => ?_, fun t f j ms hpc => ?_⟩
+  · obtain ⟨k, v, h1, h2, _⟩ := (hi.nodes tb htb).slot_nonneg hd hlt hc
+    exact ⟨k, v, h2, h1⟩
+  · obtain ⟨k, v, h1, h2, _⟩ := cmp_reads_constructed hi hpc
+    exact ⟨k, v, h1, h2⟩
+
+/-! ### swiss_probe_prefix_full -/
+
+/-- **swiss_probe_prefix_full.**  If bucket `i` of a table is claimed for key `k` (from the moment
+the CAS of its inserter succeeds), then in the current state every probe window of `k` before the
+one containing `i` has no negative byte, and neither has any byte of that window before `i` —
+so no probe for `k` stops before reaching `i`.  (`ReachC` unfolds to exactly this.) -/
+theorem swiss_probe_prefix_full (hash : Nat → Nat) {s : State} (h : Reach hash s) {tb i k : Nat}
+    (htb : tb < s.nodes.length) (hd : (nodeAt s.nodes tb).tab.dummy = false)
+    (hc : claimAt (nodeAt s.nodes tb) i = some k) :
+    ∃ m j, m < (nodeAt s.nodes tb).tab.n / 16 ∧ j < 16 ∧
+      (wbase (nodeAt s.nodes tb).tab.n ((nodeAt s.nodes tb).tab.baseOf (hash k)) m + j) % (nodeAt s.nodes tb).tab.n = i ∧
+      (∀ m', m' < m → ∀ j', j' < 16 →
+        0 ≤ (nodeAt s.nodes tb).tab.ctl (wbase (nodeAt s.nodes tb).tab.n ((nodeAt s.nodes tb).tab.baseOf (hash k)) m' + j')) ∧
+      (∀ j', j' < j →
+        0 ≤ (nodeAt s.nodes tb).tab.ctl (wbase (nodeAt s.nodes tb).tab.n ((nodeAt s.nodes tb).tab.baseOf (hash k)) m + j')) := by
+  have hok := (reachable_good h).1.nodes tb htb
+  exact hok.reach hd i k (hok.claim_lt hc) hc
+
+/-- a stored key is claimed: the hypothesis of `swiss_probe_prefix_full` holds for every bucket
+that holds a value -/
+theorem swiss_stored_is_claimed (hash : Nat → Nat) {s : State} (h : Reach hash s) {tb i k v : Nat}
+    (htb : tb < s.nodes.length) (hd : (nodeAt s.nodes tb).tab.dummy = false)
+    (hi : i < (nodeAt s.nodes tb).tab.n) (hv : (nodeAt s.nodes tb).tab.val i = some (k, v)) :
+    claimAt (nodeAt s.nodes tb) i = some k := by
+  have hok := (reachable_good h).1.nodes tb htb
+  rcases hok.slot hd i hi with ⟨_, h2, _⟩ | ⟨k', _, h3, h4⟩ | ⟨k', v', _, h3, h4⟩
+  · rw [h2] at hv; cases hv
+  · rcases h4 with h4 | ⟨v', h4⟩
+    · rw [h4] at hv; cases hv
+    · rw [h4] at hv; cases hv; exact h3
+  · rw [h3] at hv; cases hv; exact h4
+
+/-! ### swiss_find_after_insert -/
+
+/-- **swiss_find_after_insert.**  `must` of a call is, by the definition of `doCall`, the bucket that
+the first call of the history *so far* returned for the same key (`doneOf s.log key`), i.e. an
+insertion / lookup of the key that had already returned when this call began.  A call so bound —
+a `find` or an `emplace`, on the set, or on the fixed table if the bucket is in it — returns exactly
+that bucket, with `inserted = false`: it never misses it, never inserts the key again, never
+returns `end()`. -/
+theorem swiss_find_after_insert (hash : Nat → Nat) {s : State} (h : Reach hash s)
+    {t : Nat} {k : Kind} {e : Elem} {r : Res} {b : Bool} {tb i : Nat}
+    (hev : Event.ret t k e r b (some (tb, i)) ∈ s.log) (hu : k.isSet = true ∨ tb = 0) :
+    r = .slot tb i false := by
+  obtain ⟨_, hl⟩ := reachable_good h
+  have hr := hl.rets _ hev
+  cases r with
+  | none => exact absurd hu (fun hu => hr.2.1 tb i rfl hu)
+  | slot tb' i' ins =>
+    obtain ⟨_, _, _, _, hm⟩ := hr
+    obtain ⟨e1, e2, e3⟩ := hm tb i rfl hu
+    subst e1 e2 e3; rfl
+
+/-- the same, while the call is still running: when its result is computed it is the bound bucket -/
+theorem swiss_find_after_insert_pending (hash : Nat → Nat) {s : State} (h : Reach hash s)
+    {t : Nat} {f : Frame} {r : Res} {tb i : Nat} (hpc : s.pc t = .ret f r)
+    (hm : f.must = some (tb, i)) (hu : f.kind.isSet = true ∨ tb = 0) : r = .slot tb i false := by
+  obtain ⟨hi, _⟩ := reachable_good h
+  have hthr := hi.thr t
+  rw [hpc] at hthr
+  cases r with
+  | none => exact absurd hu (fun hu => hthr.2.1 tb i hm hu)
+  | slot tb' i' ins =>
+    obtain ⟨_, _, _, _, _, hmm⟩ := hthr
+    obtain ⟨e1, e2, e3⟩ := hmm tb i hm hu
+    subst e1 e2 e3; rfl
+
+/-! ### swiss_full_fails_clean -/
+
+/-- **swiss_full_fails_clean.**  An insertion returns `end()` only on the fixed table, only when the
+table refuses every key (it is the placeholder, or every bucket is non-empty — and stays so), and
+then no construct step of that call has executed (its arguments were not consumed).  More
+generally the arguments of an insertion are consumed iff it reports `inserted = true`; a lookup
+never reports `true`; an insertion into the growing set never fails. -/
+theorem swiss_full_fails_clean (hash : Nat → Nat) {s : State} (h : Reach hash s)
+    {t : Nat} {k : Kind} {e : Elem} {r : Res} {b : Bool} {m : Option (Nat × Nat)}
+    (hev : Event.ret t k e r b m ∈ s.log) :
+    (r = .none → b = false ∧ (k.isFind = false → k = .tEmplace ∧ (nodeAt s.nodes 0).tab.Sat)) ∧
+    (∀ tb i ins, r = .slot tb i ins → ins = b ∧ (k.isFind = true → ins = false)) := by
+  obtain ⟨_, hl⟩ := reachable_good h
+  have hr := hl.rets _ hev
+  cases r with
+  | none => exact ⟨fun _ => ⟨hr.1, hr.2.2⟩, fun _ _ _ hh => by cases hh⟩
+  | slot tb i ins =>
+    refine ⟨(fun hh => nomatch hh), fun tb' i' ins' hh => ?_⟩
+    cases hh
+    exact ⟨hr.2.2.1, hr.2.2.2.1⟩
+
+/-- a saturated table: the placeholder, or no bucket is EMPTY / BUSY any more -/
+theorem sat_unfold (T : Table) : T.Sat ↔ (T.dummy = true ∨ ∀ i, i < T.n → 0 ≤ T.ctl i) := Iff.rfl
+
+/-! ### set_growth_no_dup_no_drop -/
+
+/-- **set_growth_no_dup_no_drop (1/3).**  No duplicate: over all tables of the set (and all buckets
+of one table) a key is stored at most once. -/
+theorem set_growth_no_dup (hash : Nat → Nat) {s : State} (h : Reach hash s) {tb tb' i i' k v v' : Nat}
+    (htb : tb < s.nodes.length) (htb' : tb' < s.nodes.length)
+    (hi : i < (nodeAt s.nodes tb).tab.n) (hi' : i' < (nodeAt s.nodes tb').tab.n)
+    (hv : (nodeAt s.nodes tb).tab.val i = some (k, v)) (hv' : (nodeAt s.nodes tb').tab.val i' = some (k, v')) :
+    tb = tb' ∧ i = i' := by
+  obtain ⟨hinv, _⟩ := reachable_good h
+  have real : ∀ {tb i k v}, tb < s.nodes.length → (nodeAt s.nodes tb).tab.val i = some (k, v) →
+      (nodeAt s.nodes tb).tab.dummy = false := by
+    intro tb i k v htb hv
+    cases hd : (nodeAt s.nodes tb).tab.dummy with
+    | false => rfl
+    | true =>
+      rw [(hinv.nodes tb htb).placeholder_of_dummy hd, placeholder_val] at hv; cases hv
+  exact hinv.distinct _ _ _ _ k htb htb'
+    (swiss_stored_is_claimed hash h htb (real htb hv) hi hv)
+    (swiss_stored_is_claimed hash h htb' (real htb' hv') hi' hv')
+
+/-- **set_growth_no_dup_no_drop (2/3).**  No drop: a stored element is never removed or overwritten
+by any step, and every insertion that returns does so with a bucket that stores its key (in a
+table linked into the chain). -/
+theorem set_growth_no_drop (hash : Nat → Nat) {s : State} (h : Reach hash s) :
+    (∀ s', Step hash s s' → ∀ tb i e, tb < s.nodes.length →
+      (nodeAt s.nodes tb).tab.val i = some e → (nodeAt s'.nodes tb).tab.val i = some e) ∧
+    (∀ t k e tb i ins b m, Event.ret t k e (.slot tb i ins) b m ∈ s.log →
+      tb ∈ s.chain ∧ (nodeAt s.nodes tb).tab.keyAt i = some e.1 ∧ 0 ≤ (nodeAt s.nodes tb).tab.ctl i) := by
+  obtain ⟨hinv, hl⟩ := reachable_good h
+  refine ⟨fun s' hst tb i e htb hv => ((step_mono h hst).1.2 tb htb).val i e hv, ?_⟩
+  intro t k e tb i ins b m hev
+  obtain ⟨hlt, hp, _⟩ := hl.rets _ hev
+  refine ⟨?_, hp.2.2.1, by rw [hp.2.2.2.2.1]; exact tagOf_nonneg _⟩
+  apply Classical.byContradiction
+  intro hnm
+  have := (hinv.offChain tb hlt hnm).2 i
+  rw [hp.2.2.2.1] at this; cases this
+
+/-- **set_growth_no_dup_no_drop (3/3).**  The chain is a linked list that only grows, and only by the
+successful CAS of a thread that found `next == nullptr`: `next` of the node at position `p` is the
+node at position `p + 1` (none for the last), node ids in the chain are pairwise distinct, every
+table before a table that holds a claimed bucket is saturated. -/
+theorem set_chain_grows_by_cas (hash : Nat → Nat) {s : State} (h : Reach hash s) :
+    (∀ p, p < s.chain.length → (nodeAt s.nodes (s.chain.getD p 0)).next = s.chain[p + 1]?) ∧
+    s.chain.Nodup ∧ s.chain.head? = some 0 ∧
+    (∀ p q x k, p < q → q < s.chain.length → claimAt (nodeAt s.nodes (s.chain.getD q 0)) x = some k →
+      (nodeAt s.nodes (s.chain.getD p 0)).tab.Sat) ∧
+    (∀ s', Step hash s s' → s'.chain ≠ s.chain →
+      ∃ t f nw, s.pc t = .nextCas f nw ∧ (nodeAt s.nodes f.tb).next = none ∧ s'.chain = s.chain ++ [nw] ∧
+        (nodeAt s'.nodes f.tb).next = some nw) := by
+  obtain ⟨hinv, _⟩ := reachable_good h
+  exact ⟨hinv.chain.link, hinv.chain.nodup, hinv.chain.head, hinv.later,
+    fun s' hst hne => step_chain_by_cas h hst hne⟩
+
+/-! ### non-vacuity: concrete reachable states -/
+
+/-- identity hash, as in the correspondence harness -/
+def idHash : Nat → Nat := fun k => k
+
+/-- the call returns if its result has been computed -/
+def retIfDone (s : State) (t : Nat) : State :=
+  match s.pc t with
+  | .ret f r => doRet s t f r
+  | _ => s
+
+/-- an idle thread calls -/
+def callIfIdle (s : State) (t : Nat) (k : Kind) (e : Elem) : State :=
+  if s.pc t = .idle then doCall idHash s t k e else s
+
+theorem reach_retIfDone {s : State} (h : Reach idHash s) (t : Nat) : Reach idHash (retIfDone s t) := by
+  unfold retIfDone
+  split
+  · next f r hpc => exact reach_ret h hpc
+  · exact h
+
+theorem reach_callIfIdle {s : State} (h : Reach idHash s) (t : Nat) (k : Kind) (e : Elem) :
+    Reach idHash (callIfIdle s t k e) := by
+  unfold callIfIdle
+  split
+  · next hpc => exact reach_call h hpc k e
+  · exact h
+
+/-- thread 1 inserts key 42 into a 16-bucket fixed table and returns; then thread 2 looks it up -/
+def exState : State :=
+  let s0 := State.init (Table.mk' 16)
+  let s1 := retIfDone (runThread idHash (callIfIdle s0 1 .tEmplace (42, 7)) 1 22) 1
+  retIfDone (runThread idHash (callIfIdle s1 2 .tFind (42, 0)) 2 18) 2
+
+theorem exState_reach : Reach idHash exState := by
+  have h0 : Reach idHash (State.init (Table.mk' 16)) := Reachable.base (Or.inl ⟨16, rfl⟩)
+  exact reach_retIfDone (reach_runThread (reach_callIfIdle
+    (reach_retIfDone (reach_runThread (reach_callIfIdle h0 1 .tEmplace (42, 7)) 1 22) 1) 2 .tFind (42, 0)) 2 18) 2
+
+/-- the hypotheses of the theorems above are satisfiable: in `exState` the insertion has returned
+`(bucket 0, true)` having consumed its argument, and the later lookup, bound to that bucket, has
+returned it -/
+example : exState.log =
+    [.call 1 .tEmplace (42, 7), .ret 1 .tEmplace (42, 7) (.slot 0 0 true) true none,
+     .call 2 .tFind (42, 0), .ret 2 .tFind (42, 0) (.slot 0 0 false) false (some (0, 0))] := by
+  decide
 
 end Babylon.Properties.C03
